@@ -114,7 +114,7 @@ theorem using_line_rejected (r : Chars) (h1 : aliasRest (' ' :: r) = none) (h2 :
   · have e1 : constName (usingLine r) = none := constName_none_of_head _ _ hu (by decide)
     have e2 : propertyName (usingLine r) = some ("using", ' ' :: r) := propertyName_using _
     have hne : ("using" = "inline") = False := by decide
-    cases afterAttrs <;> simp only [parseStructLine, e1, e2, h2, hne, bind, Option.bind, Bool.false_eq_true, ↓reduceIte]
+    cases afterAttrs <;> simp only [parseStructLine, plainMemberRest, e1, e2, h2, hne, bind, Option.bind, Bool.false_eq_true, ↓reduceIte]
 
 /-- the alias rule fails when the name is not a `USER_TYPE_NAME` -/
 theorem aliasRest_none_of_name (r : Chars) (h : userTypeName r = none) : aliasRest r = none := by
